@@ -512,6 +512,12 @@ def finish(m, J, s, raw, spec, props, mf, depth=0, subs_raw=None, alt=None):
         obs['source'] = oracles.provenance(obs['tree'])[0]
     vs = oracles.judge(obs, props)
     J.obligations += 1
+    if vs:
+        from lib import known
+        vs, hits = known.split_known(known.load(), props, obs, vs)
+        for h in hits:
+            J.known = getattr(J, 'known', {})
+            if h not in J.known: J.known[h] = dict(mf(mdl), oracle='known finding ' + h, known=h)
     if not vs: J.discharged += 1
     else:
         d = mf(mdl); d['oracle'] = '; '.join('%s: %s' % v for v in vs[:3]); d['props'] = sorted({p for p, _ in vs})
